@@ -358,3 +358,8 @@ Fixpoint walked_later (neg : bool) (sts : list nat) (a : nat -> bool) (es : list
     match e with EProcess act deact _ _ _ => walk_full neg sts a act deact | _ => false end
     || walked_later neg sts (act_upd a e) r
   end.
+
+(* all the states of a When (neg = false) / WhenNot (neg = true) are active /
+   inactive under the told activity *)
+Definition told_cond (neg : bool) (sts : list nat) (a : nat -> bool) : bool :=
+  forallb (fun x => Bool.eqb (a x) (negb neg)) sts.
